@@ -220,9 +220,9 @@ def check_c03(run, shapes=None):
     thorough = run.tier == "thorough"
     if shapes is None:
         shapes = enumerate_shapes(run, "HseqGen", c03_configs(run.tier), C03_INV, "c03")
-        shapes = sample_shapes(shapes, 3000 if thorough else 320, run.seed)
+        shapes = sample_shapes(shapes, 3000 if thorough else 700, run.seed)
     run.notes["shapes_compiled"] = len(shapes)
-    groups = split(shapes, 8 if thorough else 4)
+    groups = split(shapes, 8)
     rnd = random.Random(run.seed)
     pkgs, inputs = {}, {}
     with Scratch() as d:
@@ -345,7 +345,7 @@ def check_optics(run, shapes=None):
         if prop == "C02":
             model_defect(run)
     run.notes["shapes_compiled"] = len(shapes)
-    groups = split(shapes, 8 if thorough else 4)
+    groups = split(shapes, 8)
     pkgs, inputs, ninst = {}, {}, 0
     with Scratch() as d:
         for gi, grp in enumerate(groups):
